@@ -344,8 +344,11 @@ def str_method(I, s, name):
                     from .strings import utf8_struct
                     return SStr(utf8_struct(I_, t), is_bytes=True)
                 r = SStr(f(t), is_bytes=True)
-                if hasattr(s, "view"):  # frame strings keep their abstract view
-                    r = type(s)(f(t), True, s.view)
+                if hasattr(s, "view"):
+                    # frame strings (result of the Codec.encode contract) keep their abstract view; A-ASCII: the
+                    # frames of the session-layer proofs are ASCII text, whose utf-8 image is the text itself
+                    # (non-ASCII text is refused by send_msg - proved on the real bodies in C02)
+                    r = type(s)(t, True, s.view)
                 return r
             if enc == "latin-1":
                 return SStr(t, is_bytes=True)
